@@ -376,12 +376,12 @@ evaluations = scenarios; cli_invocations counts the individual executions. non-t
         "crash points are the guarded points only; crashes between two syscalls not separated by a point are reached by the timed kills".into(),
         "power-loss semantics (unsynced data) are out of scope".into(),
     ];
-    let n = ctx.n(16, 300);
+    let n = ctx.n(16, 120);
     let all_hits = ctx.thorough();
     ctx.drive("enumerate-points", || strategy(0, true, all_hits), n, check);
-    let n2 = ctx.n(16, 600);
+    let n2 = ctx.n(16, 300);
     ctx.drive("timed-sigkill", || strategy(5, false, false), n2, check);
-    let n3 = ctx.n(12, 400);
+    let n3 = ctx.n(12, 150);
     ctx.drive("crashes-in-a-row", || strategy_series(0, false, false, 5), n3, check);
 }
 
